@@ -19,7 +19,8 @@ DECIDES = ('On the FSM of USBResetSequencer, states identified by what they do (
            'else holds; (d) every bus_reset site is guarded by ~vbus_connected or by timer == C with C = 5us (LS/FS '
            'operation), 2.5us (suspended) or 200us in the discrimination state that is entered only after 3 ms of SE0 at '
            'high speed, in states that clear the timer whenever the line is not SE0; (e) suspend is entered only at '
-           'line_state_time == 3 ms (cleared on ~bus_idle) or through the HS discrimination state on J, and the registered '
+           'line_state_time == 3 ms (cleared on ~bus_idle and on every entry into the LS/FS operating state) or through the HS '
+           'discrimination state on J, and the registered '
            'flag tested on the resume edge into high speed is, by forward dataflow of its possible values over the whole '
            'FSM, certainly 1 after the entry from the discrimination state and certainly 0 after every other entry into '
            'suspend; (f) counters cover '
@@ -197,6 +198,18 @@ def run(ctx):
            and q.atoms(c) == {('bus_idle', False)}]
     ctx.ob('C19.idle-continuous', 'USBResetSequencer.line_state_time-clear@lsfs-run', len(clr) == 1, None,
            'the idle timer must be cleared whenever the bus is not idle')
+    # ... and the 3 ms are measured from the entry: every edge into the LS/FS operating state restarts the idle timer (the
+    # counter free-runs through the reset / chirp states, a stale count would shorten the first suspend after a reset)
+    for e in fsm.in_edges(lsfs_run):
+        if e.src == lsfs_run:
+            continue
+        here = sorted([a for a in ir.drivers('line_state_time', exact=True) if a.state == e.state], key=lambda a: a.order)
+        sure = [a for a in here if q.atoms(a) <= q.atoms(e)]
+        ok = bool(sure) and q.is_zero(sure[-1].rhs) and not any(
+            a.order > sure[-1].order and not q.is_zero(a.rhs) and not (q.atoms(a) <= q.atoms(e)) for a in here)
+        ctx.ob('C19.idle-from-entry', 'USBResetSequencer.%s->lsfs-run.line_state_time' % R(e.src), ok, e.loc,
+               'every entry into the LS/FS operating state must restart the idle timer line_state_time, otherwise suspend is '
+               'entered after less than 3 ms of idle: writers on this edge: %s' % [q.fmt(a)[:120] for a in sure] )
     bi = ir.drivers('bus_idle', exact=True)
     vals = sorted((tuple(sorted(q.guard_consts(a, 'self.current_speed').items())), a.rhs.canon()) for a in bi)
     ok = len(bi) == 3 and any(r == '1 == self.line_state' for _, r in vals) and any(r == '2 == self.line_state' for _, r in vals)
